@@ -21,6 +21,7 @@ Directives (one per line, `//@` first non-blank):
   //@ REPLACE BODY EXPECT "<real text up to the end of the open block>" WITH "<new text>" RULE <Rn>
   //@ SKIP STMT EXPECT "<real text>" RULE <Rn>
   //@ END                            cursor must be at the end of the region
+  //@ INCLUDE <file>                 splice a shared specification file (spec text only)
 """
 import os, re, sys, shlex
 sys.path.insert(0, os.path.dirname(__file__))
@@ -286,6 +287,10 @@ def build(template_path, repo="/repo"):
             b.replace_stmt(toks[3], None, toks[5], skip=True)
         elif op == "END":
             b.end_region()
+        elif op == "INCLUDE":
+            inc = os.path.join(os.path.dirname(template_path), toks[1])
+            for l in open(inc).read().split("\n"):
+                b._emit_spec(l)
         elif op == "NOTE":
             b.log.append({"rule": "note", "text": d[4:].strip()})
         else:
